@@ -32,7 +32,7 @@ def run_case(case, bus, ex):
     import jax.numpy as jnp
     rng = env.rng_for(*case["rs"])
     D, N, C = case["D"], case["N"], case["C"]
-    L = float(rng.choice([1.0, 2 * np.pi, 10 ** rng.uniform(-2, 2)]))
+    L = float([1.0, 2 * np.pi, 10 ** rng.uniform(-2, 2), 10 ** rng.uniform(2, 5), 10 ** rng.uniform(-4, -2)][int(case["rs"][-1] + N + C) % 5])          # any L > 0: very large and very small boxes included
     tp = G.random_trigpoly(rng, D, L, N, C=C, nterms=4)
     u = tp.on_grid(N)
     kmaxp = 2 * np.pi * tp.kmax() / L
